@@ -74,6 +74,7 @@ const (
 	ResumeFailed
 	ResumeUnexpected
 	ResumeClose
+	ResumeNoPrevid   // <resumed/> without previd: confirms no particular session
 	ResumeUnreadable // a well-formed element the stream parser itself rejects (scr.ResumeAlt picks which)
 )
 
@@ -590,6 +591,8 @@ func (sc *SrvConn) handle(it *Item) {
 			sc.Send("<message xmlns='jabber:client'><body>what?</body></message>")
 		case ResumeClose:
 			sc.Close()
+		case ResumeNoPrevid:
+			sc.Send(fmt.Sprintf("<resumed xmlns='%s' h='0'/>", nsSM))
 		case ResumeUnreadable:
 			sc.Send(ResumeUnreadableReplies[scr.ResumeAlt%len(ResumeUnreadableReplies)])
 		}
